@@ -289,10 +289,13 @@ macro_rules! rotr_128 {
     ($name:ident, $i:expr) => {
         #[inline(always)]
         fn $name(self) -> Self {
+            // rotate the whole 128-bit word right by $i bits (0 < $i < 64): each 64-bit half takes the
+            // bits shifted out of the other half
             Self::new(unsafe {
+                let swapped = _mm_shuffle_epi32(self.x, 0b0100_1110);
                 _mm_or_si128(
-                    _mm_srli_si128(self.x, $i as i32),
-                    _mm_slli_si128(self.x, 128 - $i as i32),
+                    _mm_srli_epi64(self.x, $i as i32),
+                    _mm_slli_epi64(swapped, 64 - $i as i32),
                 )
             })
         }
